@@ -370,6 +370,15 @@ func init() {
 					e["out"], e["shape"] = g["c"], "bound"
 				} else {
 					e["fn"] = "GeometryBound"
+					if c.rng.Intn(5) == 0 { // an empty (inverted) bound as the geometry: nothing to keep, the generic clip returns nil
+						if c.rng.Intn(2) == 0 {
+							o[0], o[2] = o[2]+60, o[0]
+						} else {
+							o[1], o[3] = o[3]+60, o[1]
+						}
+						ob = toBound(o, S)
+						e["b"] = o
+					}
 					var r orb.Geometry
 					if site := guard(func() { r = clip.Geometry(b, ob) }); site != "" {
 						c.emit(panicEvent("clip.Geometry", site, e))
